@@ -160,7 +160,7 @@ def replay(doc):
         if case["src"] == "corpus":
             base["file"] = case["file"]
         else:
-            base["in"] = case["in"]
+            base["in"] = case.get("raw") or case["in"]
             base["style"] = case.get("style", 0)
         recs = [c for c in ce.record(base) if c["id"] == case["id"]]
         res = lib.trace_validate("Trace_CifEdit", "Trace_CifEdit.cfg", recs, sc, chunks=1)
